@@ -315,7 +315,8 @@ impl Run {
 }
 
 fn load_known(id: &str) -> Vec<Known> {
-    let path = verif_root().join("KNOWN_FINDINGS.txt");
+    // the committed file; VERIF_KNOWN_FILE lets a scratch evaluation (VERIF_ROOT elsewhere) still use it
+    let path = std::env::var("VERIF_KNOWN_FILE").map(PathBuf::from).unwrap_or_else(|_| verif_root().join("KNOWN_FINDINGS.txt"));
     let Ok(text) = std::fs::read_to_string(path) else {
         return Vec::new();
     };
